@@ -43,6 +43,9 @@ def main():
     for d in sorted(glob.glob('/tmp/w4_*/_seeded/m*')):
         pid = d.split('/')[2][3:]
         items.append((f'{pid}-r4{os.path.basename(d)}', os.path.join(d, 'patch.diff')))
+    for d in sorted(glob.glob('/tmp/w5_*/_seeded/m*')):
+        pid = d.split('/')[2][3:]
+        items.append((f'{pid}-r5{os.path.basename(d)}', os.path.join(d, 'patch.diff')))
     seen = {n for n, _ in items}
     for d in sorted(glob.glob(os.path.join(HERE, 'seeded', 'C*-*m*'))):
         n = os.path.basename(d)
